@@ -744,7 +744,8 @@ HighPriorityASDUQueue_isFull(HighPriorityASDUQueue self)
         memcpy(&msgSize, self->lastEntry, sizeof(uint16_t));
         nextMsgPtr = self->lastEntry + sizeof(uint16_t) + msgSize;
 
-        if (nextMsgPtr + entrySize > self->buffer + self->size) {
+        /* wrap to the start of the buffer only when the queue is not already wrapped */
+        if ((nextMsgPtr + entrySize > self->buffer + self->size) && (nextMsgPtr > self->firstEntry)) {
             nextMsgPtr = self->buffer;
         }
 
@@ -794,7 +795,10 @@ HighPriorityASDUQueue_enqueue(HighPriorityASDUQueue self, CS101_ASDU asdu)
         nextMsgPtr = self->lastEntry + sizeof(uint16_t) + msgSize;
     }
 
-    if (nextMsgPtr + entrySize > self->buffer + self->size) {
+    /* wrap to the start of the buffer only when the queue is not already wrapped
+     * (otherwise the entries at the start of the buffer would be overwritten) */
+    if ((nextMsgPtr + entrySize > self->buffer + self->size) &&
+            ((self->entryCounter == 0) || (nextMsgPtr > self->firstEntry))) {
         nextMsgPtr = self->buffer;
         self->lastInBufferEntry = self->lastEntry;
     }
